@@ -1047,9 +1047,12 @@ def dbg_type_meta(name, named_field, form):
 
 def dbg_field(name, ty, a, form, struct_style):
     """a: 'n' plain, 'i' ignore, 'k' renamed key (struct style only)"""
-    sem = {"ignore": a == "i", "key": None, "method": None}
+    sem = {"ignore": a in "ib", "key": None, "method": None}
     attrs = []
-    if a == "i":
+    if a == "b" and struct_style:
+        # ignored AND renamed: ignore wins, nothing is shown
+        attrs.append(["Debug(ignore, name = zz)", "Debug(rename(zz), ignore)", 'Debug(name = "zz", ignore = true)'][form % 3])
+    elif a in "ib":
         attrs.append(["Debug(ignore)", "Debug = false", "Debug(ignore = true)", "Debug(ignore(true))"][form % 4])
     elif a == "k" and struct_style:
         k = "k%d" % (form % 7)
@@ -1381,10 +1384,10 @@ def c15(tier, seed):
                 ty = rnd.choice(["u8", "u8", "u16", "bool"]) if i else rnd.choice(["u8", "u16"])
                 sem, attrs = {}, []
                 def pick():
-                    return rnd.choice("nnim") if ty == "u8" else rnd.choice("nni")
+                    return rnd.choice("nnimb") if ty == "u8" else rnd.choice("nni")
                 if has("PartialEq"):
                     a = pick()
-                    sem["eq"] = {"ignore": a == "i", "method": EQ_METHODS[i % 2] if a == "m" else None}
+                    sem["eq"] = {"ignore": a in "ib", "method": EQ_METHODS[i % 2] if a in "mb" else None}
                     sp = spell_field("Eq" if (has("Eq") and rnd.random() < 0.3) else "PartialEq", sem["eq"], rnd.randrange(8))
                     if sp: attrs.append(sp)
                 if has("PartialOrd"):
@@ -1394,12 +1397,12 @@ def c15(tier, seed):
                         r = rnd.choice([x for x in (-5, -1, 0, 2, 9, 40) if x not in used_ranks])
                         used_ranks.add(r)
                     meths = ["crate::m::pcmp_a", "crate::m::pcmp_b"] if md == "po" else ["crate::m::cmp_a", "crate::m::cmp_b"]
-                    sem["ord"] = {"ignore": a == "i", "method": meths[i % 2] if a == "m" else None, "rank": r}
+                    sem["ord"] = {"ignore": a in "ib", "method": meths[i % 2] if a in "mb" else None, "rank": r}
                     sp = spell_field("Ord" if (md == "both" and rnd.random() < 0.5) else "PartialOrd", sem["ord"], rnd.randrange(8))
                     if sp: attrs.append(sp)
                 if has("Hash"):
                     a = pick()
-                    sem["hash"] = {"ignore": a == "i", "method": HASH_METHODS[i % 2] if a == "m" else None}
+                    sem["hash"] = {"ignore": a in "ib", "method": HASH_METHODS[i % 2] if a in "mb" else None}
                     sp = spell_field("Hash", sem["hash"], rnd.randrange(8))
                     if sp: attrs.append(sp)
                 if has("Clone"):
@@ -1597,6 +1600,11 @@ def wide(prop):
             variants.append(Variant("V%d" % vi, kind, fs))
         out.append(clone_program(pid(), "enum", "E", variants, generics, False, "wide enum 6 variants", 1))
     if prop == "C06":
+        for assign in (("b",), ("n", "b"), ("b", "n"), ("k", "b", "n"), ("n", "n", "b")):
+            generics = ["T%d" % i for i in range(len(assign))]
+            fields = [dbg_field(LONG[i], generics[i], a, k[0] + i, True) for i, a in enumerate(assign)]
+            out.append(Program(pid(), "struct", "S", [Variant(None, "named", fields)], ["Debug"], generics=generics, inst={g: "u8" for g in generics},
+                               focus={"Debug"}, note="ignore+rename struct debug=%s" % "".join(assign), debug={"name": "default", "named_field": None}))
         for n in (4, 5):
             for shape in ("named", "tuple"):
                 for assign in _wide_assigns(n, "nik" if shape == "named" else "ni"):
